@@ -33,6 +33,26 @@ pub fn gen(seed: u64, n: usize, out: &mut String) {
         // stale scratch and cache keys would show
         let base = sig::gen_valid_cfg(&mut r);
         let mut prev_alpha: Option<u32> = None;
+        if i % 40 == 17 {
+            // a LONG history: 34..44 frame-level calls with LPC and a Tukey window whose (block size, alpha) key is different in
+            // every call - strictly shrinking / strictly growing / shuffled block sizes, or one block size with alpha moving by
+            // 2^-20 per call - so that any bounded or ordered window cache is driven through its limit
+            let mut c = base.clone(); c.ul = true; c.uc = true; c.uf = r.chance(1, 2); c.lo = 1 + r.below(8) as usize;
+            let m = 34 + r.below(11) as usize;
+            let style = r.below(4);
+            let a0: f32 = *r.pick(&[0.25f32, 0.5, 0.75]);
+            let mut order: Vec<usize> = (0..m).collect();
+            if style == 2 { for q in (1..m).rev() { let j = r.below(q as u64 + 1) as usize; order.swap(q, j); } }
+            for (idx, q) in order.iter().enumerate() {
+                let bs = match style { 0 => 140 - q, 1 => 64 + q, 2 => 64 + q, _ => 96 };
+                let a = if style == 3 { a0 - (idx as f32) / 1048576.0 } else { a0 };
+                c.win = Some(a.to_bits()); c.bs = bs;
+                let s: Vec<i32> = (0..bs).map(|t| (((t * 37 + idx * 11) % 23) as i32 - 11) * 3 + ((t as i32) / 7) % 5).collect();
+                calls.push(format!("F {} {} {} {} {} {}", c.encode(), 44100, 1, 8, bs, sig::fmt_samples(&s)));
+            }
+            writeln!(out, "HIST h{} {}", i, calls.join(" ;; ")).unwrap();
+            continue;
+        }
         if r.chance(1, 2) {
             // near-alpha family: identical calls except for Tukey parameters closer than 2^-16
             let mut c = base.clone();
